@@ -89,6 +89,9 @@ FUNCS = [
     dict(name='EUI_is_iab', tie='NV.Tie.eui_is_iab', prop='C08', file='eui/__init__.py', cls='EUI', func='is_iab', kind='eui', params=[], ret='bool', end='false'),
     dict(name='EUI_eui64', tie='NV.Tie.eui_eui64', prop='C08', file='eui/__init__.py', cls='EUI', func='eui64', kind='eui', params=[], ret='ctor2'),
     dict(name='IAB_split_iab_mac', tie='NV.Tie.iab_split', prop='C08', file='eui/__init__.py', cls='IAB', func='split_iab_mac', kind=None, params=[('eui_int', 'int'), ('strict', 'bool')], ret='tuple2'),
+    # the halving loop of cidr_partition (arguments already IPNetwork objects: `target = IPNetwork(target)` is the identity)
+    dict(name='cidr_partition', tie='NV.Tie.cidr_partition_eq', prop='C09', file='ip/__init__.py', cls=None, func='cidr_partition', kind=None,
+         params=[('target', 'obj:net'), ('exclude', 'obj:net')], ret='lists3', fuel='(width exclude_ver + 1)'),
     # `x in y`: one translation per operand class (isinstance tests are decided by the declared class)
     dict(name='IPNetwork_contains_addr', tie='NV.Tie.net_contains_addr', prop='C04', file='ip/__init__.py', cls='IPNetwork', func='__contains__', kind='net', params=[('other', 'obj:addr')], ret='bool'),
     dict(name='IPNetwork_contains_net', tie='NV.Tie.net_contains_net', prop='C04', file='ip/__init__.py', cls='IPNetwork', func='__contains__', kind='net', params=[('other', 'obj:net')], ret='bool'),
@@ -130,6 +133,8 @@ class Ctx:
         self.bools = {p for p, t in spec['params'] if t == 'bool'}
         self.objs = {p: t[4:] for p, t in spec['params'] if t.startswith('obj:')}
         self.opts = set()           # local variables holding Optional constructor results
+        self.vartypes = {}          # local variable -> 'int' | 'list3'
+        self.fn = None              # the FunctionDef being translated
         self.stored = 0             # > 0 while translating statements that follow a store to a field of self
         self.loops = []             # auxiliary loop definitions (text)
         self.nloops = 0
@@ -200,8 +205,15 @@ def intrinsic(ctx, e):
             return '((width %s_ver : Nat) : Int)' % o
         if ch[1:] == ['_module', 'max_int']:
             return '((maxInt %s_ver : Nat) : Int)' % o
-        if ch[1:] == ['_module', 'version']:
+        if ch[1:] in (['_module', 'version'], ['version']):
             return '((%s_ver : Nat) : Int)' % o
+        if ch[1:] == ['prefixlen'] and k == 'net':
+            return '%s_plen' % o
+        if len(ch) == 2:
+            # a translated property of the operand's class, applied to the operand's fields
+            for sp in ctx.table.values():
+                if sp['func'] == ch[1] and sp['kind'] == k and sp['ret'] == 'int' and not sp.get('_raises') and not sp['params']:
+                    return '(%s %s)' % (sp['name'], ' '.join('%s_%s' % (o, f) for f in OBJ_FIELDS[k]))
     if ch in (['_ipv4', 'max_int'],):
         return '((maxInt 4 : Nat) : Int)'
     if ch in (['_ipv4', 'width'],):
@@ -362,6 +374,8 @@ def ret_type(spec):
             'opt_ctor2': 'Option (Int × Int)', 'opt_ctor3': 'Option (Int × Int × Int)'}.get(r)
     if r.startswith('tuple'):
         base = ' × '.join('Int' for _ in range(int(r[5:])))
+    if r == 'lists3':
+        base = 'List (Int × Int × Int) × List (Int × Int × Int) × List (Int × Int × Int)'
     if r == 'self':
         base = ' × '.join('Int' for _ in KINDS[spec['kind']][1])
     return base
@@ -371,8 +385,42 @@ def wrap_ok(ctx, t):
     return '.ok %s' % t if ctx.spec['_raises'] else t
 
 
+def obj_tuple(ctx, e):
+    """a network object as the tuple (value, prefixlen, version): a constructor call, an operand, or `operand.cidr`"""
+    if is_ctor_call(ctx, e):
+        a = ctor_args(ctx, e)
+        if len(a) != 3:
+            raise Untranslatable('list element constructor arity %d' % len(a))
+        return '(' + ', '.join(a) + ')'
+    if isinstance(e, ast.Name) and ctx.objs.get(e.id) == 'net':
+        return '(%s_val, %s_plen, ((%s_ver : Nat) : Int))' % (e.id, e.id, e.id)
+    ch = attr_chain(e)
+    if ch and len(ch) == 2 and ctx.objs.get(ch[0]) == 'net':
+        for sp in ctx.table.values():
+            if sp['func'] == ch[1] and sp['kind'] == 'net' and sp['ret'] == 'ctor3' and not sp['params']:
+                return '(%s %s_ver %s_val %s_plen)' % (sp['name'], ch[0], ch[0], ch[0])
+    raise Untranslatable('list element %s' % ast.dump(e)[:60])
+
+
+def lval(ctx, e):
+    """Lean term of type List (Int × Int × Int)"""
+    if isinstance(e, ast.List):
+        return '[' + ', '.join(obj_tuple(ctx, x) for x in e.elts) + ']'
+    if isinstance(e, ast.Name) and ctx.vartypes.get(e.id) == 'list3':
+        return e.id
+    if isinstance(e, ast.Subscript) and isinstance(e.slice, ast.Slice) and e.slice.lower is None and e.slice.upper is None \
+            and isinstance(e.slice.step, ast.UnaryOp) and isinstance(e.slice.step.op, ast.USub) \
+            and isinstance(e.slice.step.operand, ast.Constant) and e.slice.step.operand.value == 1:
+        return '(%s).reverse' % lval(ctx, e.value)
+    raise Untranslatable('list expression %s' % ast.dump(e)[:60])
+
+
 def retval(ctx, e):
     r = ctx.spec['ret']
+    if r == 'lists3':
+        if isinstance(e, ast.Tuple) and len(e.elts) == 3:
+            return '(' + ', '.join(lval(ctx, x) for x in e.elts) + ')'
+        raise Untranslatable('return of something else than three lists')
     if r == 'bool':
         return '(decide %s)' % prop(ctx, e)
     if r == 'int':
@@ -413,6 +461,9 @@ def assigned_vars(stmts):
             for t in tg:
                 if isinstance(t, ast.Name) and t.id not in out:
                     out.append(t.id)
+        if isinstance(s, ast.Expr) and isinstance(s.value, ast.Call) and isinstance(s.value.func, ast.Attribute) \
+                and s.value.func.attr == 'append' and isinstance(s.value.func.value, ast.Name) and s.value.func.value.id not in out:
+            out.append(s.value.func.value.id)
     return out
 
 
@@ -475,6 +526,13 @@ def block(ctx, stmts, ind, loop=None):
         if not isinstance(tgt, ast.Name):
             raise Untranslatable('assignment target')
         v = tgt.id
+        # target = IPNetwork(target): the operand is declared to be that object already
+        if v in ctx.objs and is_ctor_call(ctx, val) and len(val.args) == 1 and isinstance(val.args[0], ast.Name) \
+                and val.args[0].id == v and not val.keywords:
+            return block(ctx, rest, ind, loop)
+        if isinstance(val, ast.List):
+            ctx.vartypes[v] = 'list3'
+            return '%slet %s : List (Int × Int × Int) := %s\n%s' % (pad, v, lval(ctx, val), block(ctx, rest, ind, loop))
         # klass = self.__class__
         if isinstance(val, ast.Attribute) and val.attr == '__class__':
             ctx.ctor_alias.add(v)
@@ -492,7 +550,13 @@ def block(ctx, stmts, ind, loop=None):
             if sm is not None and sm.get('_raises') and sm['ret'] == 'int':
                 t, _ = call_member(ctx, sm, [ival(ctx, a) for a in val.args])
                 return '%smatch %s with\n%s| .error e => .error e\n%s| .ok %s =>\n%s' % (pad, t, pad, pad, v, block(ctx, rest, ind + 1, loop))
+        ctx.vartypes.setdefault(v, 'int')
         return '%slet %s : Int := %s\n%s' % (pad, v, ival(ctx, val), block(ctx, rest, ind, loop))
+    if isinstance(s, ast.Expr) and isinstance(s.value, ast.Call) and isinstance(s.value.func, ast.Attribute) \
+            and s.value.func.attr == 'append' and isinstance(s.value.func.value, ast.Name) \
+            and ctx.vartypes.get(s.value.func.value.id) == 'list3' and len(s.value.args) == 1:
+        v = s.value.func.value.id
+        return '%slet %s : List (Int × Int × Int) := %s ++ [%s]\n%s' % (pad, v, v, obj_tuple(ctx, s.value.args[0]), block(ctx, rest, ind, loop))
     if isinstance(s, ast.If):
         st = static_test(ctx, s.test)
         if st is not None:
@@ -508,10 +572,15 @@ def block(ctx, stmts, ind, loop=None):
             raise Untranslatable('while loop without a fuel term')
         ctx.nloops += 1
         lname = '%s_loop%d' % (ctx.spec['name'], ctx.nloops)
-        lv = assigned_vars(s.body)
-        # variables live in the loop: the ones the body assigns (all Int)
+        before = [v for v in assigned_vars([st for st in ast.walk(ctx.fn) if isinstance(st, ast.stmt) and st is not ctx.fn
+                                            and getattr(st, 'lineno', 0) < s.lineno
+                                            and not any(st is x or st in ast.walk(x) for x in [s])])
+                  if v in ctx.vartypes]
+        inbody = [v for v in assigned_vars(s.body) if v in before]
+        lv = inbody + [v for v in before if v not in inbody]
+        # loop variables: the locals defined before the loop - first the ones the body assigns, then the others
         selfp = ' '.join('(%s : %s)' % (f, 'Nat' if f == 'ver' else 'Int') for f in KINDS[ctx.kind][0])
-        par = ' '.join('(%s : Int)' % v for v in lv)
+        par = ' '.join('(%s : %s)' % (v, 'List (Int × Int × Int)' if ctx.vartypes.get(v) == 'list3' else 'Int') for v in lv)
         extra = ' '.join(param_binders(ctx.spec))
         rt = ret_type(ctx.spec)
         rt = 'R (%s)' % rt if ctx.spec['_raises'] else rt
@@ -597,6 +666,7 @@ def translate_all(root=None, funcs=None):
             ctx = Ctx(spec, table)
             spec['_raises'] = has_raise(fn, table, spec) or calls_raising(fn, ctx)
             ctx.spec = spec
+            ctx.fn = fn
             ctx.table = dict(table)
             ctx.table[spec['name']] = spec
             body = block(ctx, list(fn.body), 1)
